@@ -31,6 +31,33 @@ def delEx (nm : Stmt) (σ : State) : State :=
   | some x => σ.del x
   | none => σ
 
+/-- comprehension variables (the targets of the generator chain) -/
+def compTargets : Stmt → List Ident
+  | .cfor tg _ inner => bindsOf tg ++ compTargets inner
+  | .seq _ t => compTargets t
+  | _ => []
+
+def State.hide (tgs : List Ident) (σ : State) : State := fun y => if y ∈ tgs then none else σ y
+def State.restore (tgs : List Ident) (saved σ : State) : State := fun y => if y ∈ tgs then saved y else σ y
+
+/-- the body of a comprehension: events (reads, target bindings) and generator levels.  A level makes zero or more
+    iterations: targets, conditions, then (condition true) the inner part.  Outcomes: `normal` or the observation stop. -/
+inductive Chain : Stmt → State → Outcome → State → Prop
+  | skip : Chain .skip σ .normal σ
+  | bind : Chain (.bind x d) σ .normal (σ.upd x d)
+  | read : Chain (.read x r) σ .normal σ
+  | readStop : Chain (.read x r) σ (.stop r) σ
+  | seqN : Chain s σ .normal σ1 → Chain t σ1 o σ2 → Chain (.seq s t) σ o σ2
+  | seqS : Chain s σ (.stop r) σ1 → Chain (.seq s t) σ (.stop r) σ1
+  | done : Chain (.cfor tg ifs inner) σ .normal σ
+  | iterSkip : Chain tg σ .normal σ1 → Chain ifs σ1 .normal σ2 → Chain (.cfor tg ifs inner) σ2 o σ3 →
+      Chain (.cfor tg ifs inner) σ o σ3
+  | iter : Chain tg σ .normal σ1 → Chain ifs σ1 .normal σ2 → Chain inner σ2 .normal σ3 →
+      Chain (.cfor tg ifs inner) σ3 o σ4 → Chain (.cfor tg ifs inner) σ o σ4
+  | iterS1 : Chain tg σ .normal σ1 → Chain ifs σ1 (.stop r) σ2 → Chain (.cfor tg ifs inner) σ (.stop r) σ2
+  | iterS2 : Chain tg σ .normal σ1 → Chain ifs σ1 .normal σ2 → Chain inner σ2 (.stop r) σ3 →
+      Chain (.cfor tg ifs inner) σ (.stop r) σ3
+
 inductive Exec : Stmt → State → Outcome → State → Prop
   | skip : Exec .skip σ .normal σ
   | bind : Exec (.bind x d) σ .normal (σ.upd x d)
@@ -79,6 +106,13 @@ inductive Exec : Stmt → State → Outcome → State → Prop
   | clsN : Exec pre σ .normal σ1 → Exec body σ1 .normal σ2 → Exec (.cls pre c d body) σ .normal (σ1.upd c d)
   | clsX : Exec pre σ .normal σ1 → Exec body σ1 .exc σ2 → Exec (.cls pre c d body) σ .exc σ1
   | clsS : Exec pre σ (.stop r) σ1 → Exec (.cls pre c d body) σ (.stop r) σ1
+  -- comprehension: the first iterable outside, the generator chain with the comprehension variables hidden on entry
+  -- and restored afterwards (Python 3: they are local to the comprehension)
+  | compN : Exec it σ .normal σ1 → Chain g (State.hide (compTargets g) σ1) .normal σ2 →
+      Exec (.comp it g) σ .normal (State.restore (compTargets g) σ1 σ2)
+  | compS1 : Exec it σ (.stop r) σ1 → Exec (.comp it g) σ (.stop r) σ1
+  | compS2 : Exec it σ .normal σ1 → Chain g (State.hide (compTargets g) σ1) (.stop r) σ2 →
+      Exec (.comp it g) σ (.stop r) σ2
   -- raise points and jumps
   | mayraiseN : Exec (.mayraise k) σ .normal σ
   | mayraiseX : Exec (.mayraise k) σ .exc σ
@@ -108,6 +142,39 @@ def isBinds : Stmt → Bool
   | .seq s t => isBinds s && isBinds t
   | _ => false
 
+/-- generator chain of a comprehension in the fragment: targets are bindings, iterables / conditions / element are
+    reads (no walrus) -/
+def chainFrag : Stmt → Bool
+  | .cfor tg ifs inner => isBinds tg && isReads ifs && chainFrag inner
+  | .seq s t => isReads s && chainFrag t
+  | .skip => true
+  | .read _ _ => true
+  | _ => false
+
+def readIds (s : Stmt) : List RId := (readsOf s).map (·.1)
+
+/-- read `r` lies, inside a comprehension, before a deeper generator level that binds `x`: on a later iteration it
+    finds the value that level left behind (in real Python the first evaluation raises UnboundLocalError); supp looks
+    `x` up outside the comprehension -/
+def lateChain : Stmt → RId → Ident → Bool
+  | .cfor _ ifs inner, r, x => (decide (r ∈ readIds ifs) && decide (x ∈ compTargets inner)) || lateChain inner r x
+  | .seq s t, r, x => (decide (r ∈ readIds s) && decide (x ∈ compTargets t)) || lateChain t r x
+  | _, _, _ => false
+
+def lateRead : Stmt → RId → Ident → Bool
+  | .seq s t, r, x => lateRead s r x || lateRead t r x
+  | .ite c a b, r, x => lateRead c r x || lateRead a r x || lateRead b r x
+  | .while_ c b e, r, x => lateRead c r x || lateRead b r x || lateRead e r x
+  | .for_ it tg b e, r, x => lateRead it r x || lateRead tg r x || lateRead b r x || lateRead e r x
+  | .tryx _ _ b hs e, r, x => lateRead b r x || lateRead hs r x || lateRead e r x
+  | .hcons ty nm hb rest, r, x => lateRead ty r x || lateRead nm r x || lateRead hb r x || lateRead rest r x
+  | .fin s f, r, x => lateRead s r x || lateRead f r x
+  | .comp it g, r, x => lateRead it r x || lateChain g r x
+  | .def_ pre _ _ _ _, r, x => lateRead pre r x
+  | .lam pre _ _, r, x => lateRead pre r x
+  | .cls pre _ _ _, r, x => lateRead pre r x
+  | _, _, _ => false
+
 def isName : Stmt → Bool
   | .skip => true | .bind _ _ => true
   | _ => false
@@ -117,8 +184,8 @@ def isHcons : Stmt → Bool
   | _ => false
 
 /-- C02 fragment: structured control flow only.  No jumps, raise points only as the first / last statement of a
-    try body (the flags of `tryx`) and always caught, no `global` bindings; comprehensions are outside the
-    theorem's fragment (checked by the correspondence and the CPython oracle only).
+    try body (the flags of `tryx`) and always caught, no `global` bindings; comprehensions with read-only
+    iterables / conditions / element (C02 only).
     `strict`: C03's additional requirement that a try body may raise both at its start and at its end (every
     syntactic path into a handler is an execution). -/
 def inFrag (strict : Bool) : Stmt → Bool
@@ -132,7 +199,7 @@ def inFrag (strict : Bool) : Stmt → Bool
   | .hnil => false
   | .hcons _ _ _ _ => false
   | .fin s f => inFrag strict s && inFrag strict f
-  | .comp _ _ => false
+  | .comp it g => !strict && isReads it && chainFrag g
   | .cfor _ _ _ => false
   | .def_ pre _ _ _ _ => isReads pre
   | .lam pre _ _ => isReads pre
@@ -157,7 +224,9 @@ def exNames : Stmt → List Ident
   | .tryx _ _ b hs e => exNames b ++ exNames hs ++ exNames e
   | .hcons ty nm hb rest => exNames ty ++ bindsOf nm ++ exNames hb ++ exNames rest
   | .fin s f => exNames s ++ exNames f
-  | .cls _ _ _ body => exNames body
+  | .def_ pre _ _ _ _ => exNames pre
+  | .lam pre _ _ => exNames pre
+  | .cls pre _ _ body => exNames pre ++ exNames body
   | _ => []
 
 /-! ## executable semantics: decisions are consumed in evaluation order, every loop makes at most `trips`
@@ -174,12 +243,6 @@ def RunSt.pop (st : RunSt) : Bool × RunSt :=
   | b :: rest => (b, { st with ds := rest })
 
 def trips : Nat := 2
-
-/-- comprehension variables (the targets of the generator chain) -/
-def compTargets : Stmt → List Ident
-  | .cfor tg _ inner => bindsOf tg ++ compTargets inner
-  | .seq _ t => compTargets t
-  | _ => []
 
 /-- `fuel` bounds the recursion depth (statement nesting + loop iterations); programs are far below it -/
 def run : Nat → Stmt → RunSt → Outcome × RunSt
